@@ -18,6 +18,8 @@ for d in sorted(glob.glob(os.path.join(V, "seeded", "C*"))):
     sid = os.path.basename(d)
     if only and not any(sid == o or sid.startswith(o + "-") for o in only):
         continue
+    if json.load(open(os.path.join(d, "meta.json"))).get("retired"):
+        continue
     rc, out = sh("git -C /repo status --porcelain")
     assert not out.strip(), "/repo not clean: %s" % out
     rc, out = sh("git -C /repo apply --whitespace=nowarn %s/patch.diff" % d)
